@@ -4,6 +4,7 @@ package c17
 
 import (
 	"encoding/json"
+	"errors"
 	"fmt"
 	"github.com/google/martian/v3"
 	"io"
@@ -32,8 +33,8 @@ type Op struct {
 	Kind string `json:"k"`
 	ID   int    `json:"id,omitempty"`
 	// Status of the response recorded by R / SR (0 = 200). Bad: the message
-	// cannot be converted (R: Content-Encoding gzip on a body that is not gzip;
-	// Q: a form body with an invalid escape): the call fails and leaves the log
+	// cannot be converted (R: a body whose read fails;
+	// Q: a body whose read fails): the call fails and leaves the log
 	// as it was.
 	Status int  `json:"status,omitempty"`
 	Bad    bool `json:"bad,omitempty"`
@@ -86,19 +87,24 @@ func mkResOp(req *http.Request, marker string, op Op) *http.Response {
 		res.StatusCode = op.Status
 	}
 	if op.Bad {
-		res.StatusCode = 200 // (bodies of other statuses are not necessarily looked at)
-		res.Header.Set("Content-Encoding", "gzip")
-		res.Body = io.NopCloser(strings.NewReader("this is not gzip"))
-		res.ContentLength = 16
+		res.StatusCode = 200                            // (bodies of other statuses are not necessarily looked at)
+		res.Body, res.ContentLength = failingBody{}, 16 // the origin went away inside the body
 	}
 	return res
 }
 
+type failingBody struct{}
+
+func (failingBody) Read([]byte) (int, error) { return 0, errors.New("verif: upload aborted") }
+func (failingBody) Close() error             { return nil }
+
+// mkBadReq is a request whose body cannot be read to its end (an aborted upload).
 func mkBadReq(id, marker string) *http.Request {
-	req, err := http.NewRequest("POST", "http://example.com/"+id+"?m="+marker, strings.NewReader("a=%zz"))
+	req, err := http.NewRequest("POST", "http://example.com/"+id+"?m="+marker, nil)
 	if err != nil {
 		panic(err)
 	}
+	req.Body, req.ContentLength = failingBody{}, 5
 	req.Header.Set("Content-Type", "application/x-www-form-urlencoded")
 	return req
 }
@@ -197,7 +203,7 @@ func runSequential(c Case) kit.Verdict {
 			err := l.RecordRequest(id, req)
 			if op.Bad {
 				if err == nil {
-					return kit.Failf("C17/sequential/unconvertible-request-accepted", "step %d: RecordRequest(%s) of a form body with an invalid escape returned nil", step, id)
+					return kit.Failf("C17/sequential/unconvertible-request-accepted", "step %d: RecordRequest(%s) of a request whose body cannot be read returned nil", step, id)
 				}
 				break // the log is as it was
 			}
@@ -234,7 +240,7 @@ func runSequential(c Case) kit.Verdict {
 			}
 			if op.Bad {
 				if err == nil {
-					return kit.Failf("C17/sequential/unconvertible-response-accepted", "step %d: RecordResponse(%s) of a body that is not what its Content-Encoding says returned nil", step, id)
+					return kit.Failf("C17/sequential/unconvertible-response-accepted", "step %d: RecordResponse(%s) of a response whose body cannot be read returned nil", step, id)
 				}
 				break // the log is as it was: the entry, if any, is still pending
 			}
